@@ -421,11 +421,16 @@ ares_status_t ares_reinit(ares_channel_t *channel)
     return ARES_SUCCESS;
   }
   channel->reinit_pending = ARES_TRUE;
-  ares_channel_unlock(channel);
 
   if (ares_threadsafety()) {
+    /* Keep holding the channel lock while the thread handle is replaced.
+     * Another caller may get past the reinit_pending check as soon as the new
+     * thread has finished, and must not read or overwrite the handle while it
+     * is still being stored (the thread would never be joined). */
+
     /* clean up the prior reinit process's thread.  We know the thread isn't
-     * running since reinit_pending was false */
+     * running since reinit_pending was false: it cleared that as its last
+     * locked action, so joining it while holding the lock can't deadlock. */
     if (channel->reinit_thread != NULL) {
       void *rv;
       ares_thread_join(channel->reinit_thread, &rv);
@@ -437,12 +442,12 @@ ares_status_t ares_reinit(ares_channel_t *channel)
       ares_thread_create(&channel->reinit_thread, ares_reinit_thread, channel);
     if (status != ARES_SUCCESS) {
       /* LCOV_EXCL_START: UntestablePath */
-      ares_channel_lock(channel);
       channel->reinit_pending = ARES_FALSE;
-      ares_channel_unlock(channel);
       /* LCOV_EXCL_STOP */
     }
+    ares_channel_unlock(channel);
   } else {
+    ares_channel_unlock(channel);
     /* Threading support not available, call directly */
     ares_reinit_thread(channel);
   }
